@@ -9,6 +9,7 @@ make that plate the best *allowed* one (every disallowed remaining plate scores 
 still), so that every selection order consistent with the policy is followed.
 """
 import itertools
+import os
 import math
 
 import numpy as np
@@ -59,6 +60,8 @@ BOUNDS = {
         "immediate_reveal_variant": "as the multi-batch variant, every selected plate revealed at once and kept in the batch ids (<= 2 samples, or <= 2 unobserved plates per sample)",
         "multi_sample_plates": "2 wells (s0,s1) at 3 name positions x remaining/batch/observed; every arrangement of 3-4 wells over two samples, contiguous and spread over the screen",
         "depth": "fixpoint (no depth bound)", "max_states_per_configuration": 200000,
+        "batch_as_the_pipeline_builds_it": "the -1 placeholder of an empty slot among the batch ids in every state where nothing is eligible; the orchestration script's "
+                                           "read-back of the running iteration's selections for 0..14 finished steps x 3 directory layouts",
     },
     "thorough": {
         "k": [1, 2, 3, 4], "samples": [1, 2, 3], "unobserved_plates_per_sample": [0, 5],
@@ -230,6 +233,7 @@ def plan(tier, seed):
     for k in BOUNDS[tier]["k"][:3]:
         for samples in ([[2, 0], [2, 0]], [[3, 0], [1, 0], [2, 0]], [[1, 0], [2, 1]]):
             items.append({"kind": "held", "case": {"variant": "held", "k": k, "samples": samples, "layout": "interleaved"}})
+    items.append({"kind": "script-batch"})
     ms = multi_sample_cases(tier)
     for i in range(0, len(ms), 60):
         items.append({"kind": "multi", "cases": ms[i:i + 60]})
@@ -709,7 +713,60 @@ def run_held_plates(case, col):
 
 
 # ------------------------------------------------------------------ contract
+def run_script_batch(item, col):
+    """'The batch' of a step in the shipped pipeline is what the orchestration script reads back from the plate directories of
+    the running iteration (nextflow/scripts/batchie.py: get_selected_plates) and hands to select_next_plate as --batch-plate-ids:
+    for every number of finished steps 0..14 (two-digit plate directories included) it is exactly the recorded selections."""
+    import shutil
+    import types
+    from collections import Counter
+
+    path = os.path.join(env.REPO, "nextflow", "scripts", "batchie.py")
+    mod = types.ModuleType("batchie_orchestration_script_c16")
+    mod.__file__ = path
+    with open(path) as f:
+        exec(compile(f.read(), path, "exec"), mod.__dict__)
+    mod.logger.handlers = []
+    mod.logger.disabled = True
+    tmp = env.scratch_dir("c16s")
+    try:
+        for layout in ("flat", "nested", "unordered"):
+            for n in range(0, 15):
+                it = os.path.join(tmp, f"{layout}_{n}", "iter_3")
+                os.makedirs(it)
+                order = list(range(n)) if layout != "unordered" else sorted(range(n), key=lambda j: (j * 7) % max(n, 1))
+                recorded = []
+                for j in order:
+                    d = os.path.join(it, f"plate_{j}", "batchie" if layout != "nested" else f"run_{j}")
+                    os.makedirs(d)
+                    sel = (5 * j + 3) % 17 if j != 4 else 0  # (plate id 0 is a selection like any other)
+                    with open(os.path.join(d, "selected_plate"), "w") as f:
+                        f.write(f"{sel}\n" if j % 2 else str(sel))
+                    recorded.append(str(sel))
+                col.evaluations += 1
+                col.states += 1
+                col.transitions += 1
+                case = {"script_batch": {"layout": layout, "finished_steps": n}}
+                try:
+                    got = mod.get_selected_plates(it)
+                except Exception as exc:  # noqa: BLE001
+                    col.violation("C16|script-batch|raised", f"get_selected_plates raised with {n} finished step(s): {short_exc(exc)}", case)
+                    continue
+                got_list = [] if got is None else [str(x).strip() for x in got]
+                col.outcome("script-batch", layout, n, tuple(sorted(got_list)))
+                col.nontriv("script-batch", layout, n)
+                if Counter(got_list) != Counter(recorded):
+                    col.violation("C16|script-batch|not-the-recorded-selections",
+                                  f"{n} steps of the running iteration recorded the selections {recorded} (plate_0 .. plate_{n - 1}); the orchestration script reads back "
+                                  f"{got_list} as the batch for the next step (missing: {sorted((Counter(recorded) - Counter(got_list)).elements())}, "
+                                  f"extra: {sorted((Counter(got_list) - Counter(recorded)).elements())})", case)
+    finally:
+        shutil.rmtree(tmp, ignore_errors=True)
+
+
 def run_item(item, col, tier):
+    if item["kind"] == "script-batch":
+        return run_script_batch(item, col)
     if item["kind"] == "bfs":
         for cfg in item["configs"]:
             run_config(cfg, col)
@@ -727,6 +784,9 @@ def replay(case, col):
         return
     if "multi" in case:
         run_multi(case["multi"], col)
+        return
+    if "script_batch" in case:
+        run_script_batch({"kind": "script-batch"}, col)
         return
     ctx = Ctx(case["config"])
     state = ((), ())
